@@ -9,6 +9,7 @@ package surveyor
 //@   immutable: s p closeQ sendQ
 //@
 //@ struct context
+//@   invariant recvQLen >= 0
 //@   close_token closeQ when closed
 //@   guarded_by s.Mutex: closed recvQLen recvExpire survExpire surv
 //@   immutable: s closeQ
@@ -33,6 +34,7 @@ package surveyor
 //@ func (*survey).start
 //@   holds s.sock.Mutex
 //@   private
+//@   requires qLen >= 0
 //@
 //@ func (*pipe).receiver
 //@   ghost body0 = result.Body at call:RecvMsg#1
